@@ -30,7 +30,7 @@ def keys_dir():
             "p521": lambda: ec.generate_private_key(ec.SECP521R1()), "ed25519": ed25519.Ed25519PrivateKey.generate,
             "ed448": ed448.Ed448PrivateKey.generate}
     for kt, g in gens.items():
-        for suffix in ("", "_b", "_c"):
+        for suffix in ("", "_b", "_c", ".v2"):     # "key_x.v2" is the file key_x.v2.pem: a dot in a key name is part of the name
             k = g()
             pem = k.private_bytes(serialization.Encoding.PEM, serialization.PrivateFormat.PKCS8, serialization.NoEncryption())
             with open(os.path.join(d, f"key_{kt}{suffix}.pem"), "wb") as fh:
@@ -93,9 +93,9 @@ def run_sign(sub, input_bytes: bytes, d: str, **kw):
     inp = os.path.join(d, "in.suit")
     out = os.path.join(d, "signed.suit")
     rec = _record_file(d)
-    for p in (out, rec):
-        if os.path.exists(p):
-            os.unlink(p)
+    if os.path.exists(rec):
+        os.unlink(rec)
+    common.make_stale(out)
     with open(inp, "wb") as fh:
         fh.write(input_bytes)
     os.environ["VERIF_KMS_RECORD"] = rec
@@ -112,11 +112,13 @@ def run_sign(sub, input_bytes: bytes, d: str, **kw):
         args.update(configuration=cfgp)
     try:
         cmd_sign.main(**args)
+        if not common.was_written(out):
+            raise FileNotFoundError("no output envelope written")
         with open(out, "rb") as fh:
             res = {"ok": fh.read()}
     except BaseException as e:  # noqa
         name = type(e).__name__
-        res = {"err": "ValueError" if isinstance(e, ValueError) else name, "wrote_output": os.path.exists(out)}
+        res = {"err": "ValueError" if isinstance(e, ValueError) else name, "wrote_output": common.was_written(out)}
     records = []
     if os.path.exists(rec):
         with open(rec) as fh:
